@@ -21,35 +21,58 @@
 (* default encoder, a flow object stored back into a shared options         *)
 (* object); TLC must find Isolated violated for each of them, which shows   *)
 (* the invariant is not vacuous.                                            *)
+(* Parsers are processes of the same system: a parser reads the solo rows   *)
+(* of one workload row by row into its own decoder table (id -> key) and    *)
+(* its own previous term; what it yields must be that workload's statements *)
+(* (IsolatedRead).  "rtable" and "rrep" are the wrong designs on that side  *)
+(* (decoder tables built from a cached template that shares its storage;    *)
+(* previous terms as a class attribute).                                    *)
 (* TLC also enumerates every interleaving (PrintSchedule) for the harness,  *)
 (* which imposes each one on real pipelines.                                *)
 (***************************************************************************)
 EXTENDS Integers, Sequences, FiniteSets, TLC, Json
 
-CONSTANTS Streams, Work, SharedState, FlushEvery
+CONSTANTS Streams, Work, SharedState, FlushEvery,
+          Parsers, Src          \* parser processes and the workload each one reads (Src[p] \in DOMAIN Work)
 
 VARIABLES pos,      \* [stream -> statements encoded]
-          table,    \* [stream -> set of keys with an entry]   (index "*" when shared)
+          table,    \* [stream -> sequence of keys; the id of a key is its position]   (index "*" when shared)
           rep,      \* [stream -> previous term]
           flow,     \* [stream -> rows buffered in the frame flow]
           out,      \* [stream -> rows emitted]
+          rpos,     \* [parser -> rows consumed]
+          rtable,   \* [parser -> id -> key]                                            (index "*" when shared)
+          rrep,     \* [parser -> previous term]
+          items,    \* [parser -> statements yielded]
           sched     \* the interleaving so far
-vars == <<pos, table, rep, flow, out, sched>>
+vars == <<pos, table, rep, flow, out, rpos, rtable, rrep, items, sched>>
 
 Own(s, what) == IF SharedState = what THEN "*" ELSE s
-Keys == Streams \cup {"*"}
+Keys == Streams \cup Parsers \cup {"*"}
+NoFn == [x \in {} |-> x]
 
 Init ==
   /\ pos = [s \in Streams |-> 0]
-  /\ table = [s \in Keys |-> {}]
+  /\ table = [s \in Keys |-> <<>>]
   /\ rep = [s \in Keys |-> "none"]
   /\ flow = [s \in Keys |-> <<>>]
   /\ out = [s \in Streams |-> <<>>]
+  /\ rpos = [p \in Parsers |-> 0]
+  /\ rtable = [p \in Keys |-> NoFn]
+  /\ rrep = [p \in Keys |-> "none"]
+  /\ items = [p \in Parsers |-> <<>>]
   /\ sched = <<>>
 
-RowsFor(st, tab, prev) ==        \* entry row if the key is new, then the statement row (term elided if repeated)
-  (IF st[1] \in tab THEN <<>> ELSE <<<<"entry", st[1]>>>>)
-  \o << <<"stmt", st[1], IF st[2] = prev THEN "elided" ELSE st[2]>> >>
+Has(tab, k) == \E i \in DOMAIN tab : tab[i] = k
+IdOf(tab, k) == CHOOSE i \in DOMAIN tab : tab[i] = k
+
+RowsFor(st, tab, prev) ==        \* entry row (id, key) if the key is new, then the statement row (id; term elided if repeated)
+  LET new == ~Has(tab, st[1])
+      id  == IF new THEN Len(tab) + 1 ELSE IdOf(tab, st[1])
+  IN (IF new THEN <<<<"entry", id, st[1]>>>> ELSE <<>>)
+     \o << <<"stmt", id, IF st[2] = prev THEN "elided" ELSE st[2]>> >>
+
+Learn(tab, k) == IF Has(tab, k) THEN tab ELSE Append(tab, k)
 
 Step(s) ==
   /\ pos[s] < Len(Work[s])
@@ -61,23 +84,49 @@ Step(s) ==
          flush == (pos[s] + 1) % FlushEvery = 0 \/ pos[s] + 1 = Len(Work[s])      \* frame_from_bounds / final flush
      IN /\ IF flush THEN out' = [out EXCEPT ![s] = @ \o buffered] /\ flow' = [flow EXCEPT ![f] = <<>>]
                  ELSE out' = out /\ flow' = [flow EXCEPT ![f] = buffered]
-        /\ table' = [table EXCEPT ![t] = @ \cup {st[1]}]
+        /\ table' = [table EXCEPT ![t] = Learn(@, st[1])]
         /\ rep' = [rep EXCEPT ![r] = st[2]]
   /\ pos' = [pos EXCEPT ![s] = @ + 1]
   /\ sched' = Append(sched, s)
-
-Next == \E s \in Streams : Step(s)
-Spec == Init /\ [][Next]_vars
+  /\ UNCHANGED <<rpos, rtable, rrep, items>>
 
 RECURSIVE Solo(_, _, _, _)
 Solo(w, i, tab, prev) ==
   IF i > Len(w) THEN <<>>
-  ELSE RowsFor(w[i], tab, prev) \o Solo(w, i + 1, tab \cup {w[i][1]}, w[i][2])
+  ELSE RowsFor(w[i], tab, prev) \o Solo(w, i + 1, Learn(tab, w[i][1]), w[i][2])
 
-Done == \A s \in Streams : pos[s] = Len(Work[s])
+Input(p) == Solo(Work[Src[p]], 1, <<>>, "none")       \* what the parser is given: the workload's solo stream
+
+(* one generator step of a parser: rows are consumed up to and including the next statement row, which is yielded *)
+RECURSIVE Consume(_, _, _)
+Consume(rows, i, tab) ==         \* returns <<next position, table, the statement row>>
+  IF rows[i][1] = "entry" THEN Consume(rows, i + 1, (rows[i][2] :> rows[i][3]) @@ tab)
+  ELSE <<i, tab, rows[i]>>
+
+RStep(p) ==
+  /\ rpos[p] < Len(Input(p))
+  /\ LET t == Own(p, "rtable")
+         r == Own(p, "rrep")
+         c == Consume(Input(p), rpos[p] + 1, rtable[t])
+         row == c[3]
+         term == IF row[3] = "elided" THEN rrep[r] ELSE row[3]
+         key == IF row[2] \in DOMAIN c[2] THEN c[2][row[2]] ELSE "unresolved"
+     IN /\ rpos' = [rpos EXCEPT ![p] = c[1]]
+        /\ rtable' = [rtable EXCEPT ![t] = c[2]]
+        /\ rrep' = [rrep EXCEPT ![r] = term]
+        /\ items' = [items EXCEPT ![p] = Append(@, <<key, term>>)]
+  /\ sched' = Append(sched, p)
+  /\ UNCHANGED <<pos, table, rep, flow, out>>
+
+Next == (\E s \in Streams : Step(s)) \/ (\E p \in Parsers : RStep(p))
+Spec == Init /\ [][Next]_vars
+
+Done == (\A s \in Streams : pos[s] = Len(Work[s])) /\ (\A p \in Parsers : rpos[p] = Len(Input(p)))
 Emitted(s) == out[s] \o (IF SharedState = "flow" THEN <<>> ELSE flow[s])       \* what the stream has produced so far
 Isolated == \A s \in Streams :
-              /\ (SharedState # "flow" => Emitted(s) = Solo(SubSeq(Work[s], 1, pos[s]), 1, {}, "none"))
-              /\ (pos[s] = Len(Work[s]) => out[s] = Solo(Work[s], 1, {}, "none"))
+              /\ (SharedState # "flow" => Emitted(s) = Solo(SubSeq(Work[s], 1, pos[s]), 1, <<>>, "none"))
+              /\ (pos[s] = Len(Work[s]) => out[s] = Solo(Work[s], 1, <<>>, "none"))
+IsolatedRead == \A p \in Parsers : items[p] = SubSeq(Work[Src[p]], 1, Len(items[p]))
+NoSchedView == <<pos, table, rep, flow, out, rpos, rtable, rrep, items>>     \* (VIEW for runs that only check the invariants: interleavings reaching one state merge)
 PrintSchedule == Done => PrintT("SCHEDULE " \o ToJson(sched))
 =============================================================================
